@@ -1211,8 +1211,17 @@ func (sc *serverConn) handleHeaderFrame(strm *Stream, fr *FrameHeader) error {
 	// fields join the request headers, which is the nearest thing fasthttp's
 	// request has to a place for them.
 	// https://httpwg.org/specs/rfc7540.html#rfc.section.8.1
-	if strm.headersFinished && !fr.Flags().Has(FlagEndStream|FlagEndHeaders) {
-		return NewGoAwayError(ProtocolError, "stream not open")
+	if strm.headersFinished && fr.Type() == FrameHeaders {
+		if !fr.Flags().Has(FlagEndStream) {
+			return NewGoAwayError(ProtocolError, "stream not open")
+		}
+
+		// Like any header block the trailers may go on in CONTINUATION
+		// frames. The request is not complete until they end, so it must not
+		// be dispatched on the strength of the first block's END_HEADERS.
+		if !fr.Flags().Has(FlagEndHeaders) {
+			strm.headersFinished = false
+		}
 	}
 
 	if headerFrame, ok := fr.Body().(*Headers); ok && headerFrame.Stream() == strm.ID() {
